@@ -90,6 +90,10 @@ func NewValue(typ *meta.Type, v interface{}) (val.Value, error) {
 func toIdentRef(bases []*meta.Identity, v interface{}) (val.IdentRef, error) {
 	var empty val.IdentRef
 	x := fmt.Sprintf("%v", v)
+	if ref, isRef := v.(val.IdentRef); isRef {
+		// what a store received from the library comes back as it was stored
+		x = ref.Label
+	}
 	if colon := strings.IndexRune(x, ':'); colon > 0 {
 		x = x[colon+1:]
 	}
@@ -103,6 +107,18 @@ func toIdentRef(bases []*meta.Identity, v interface{}) (val.IdentRef, error) {
 
 func toIdentRefList(base []*meta.Identity, v interface{}) (val.IdentRefList, error) {
 	switch x := v.(type) {
+	case val.IdentRefList:
+		return x, nil
+	case []interface{}:
+		var refs []val.IdentRef
+		for _, s := range x {
+			ref, err := toIdentRef(base, s)
+			if err != nil {
+				return nil, err
+			}
+			refs = append(refs, ref)
+		}
+		return refs, nil
 	case string:
 		ref, err := toIdentRef(base, x)
 		if err != nil {
@@ -125,6 +141,16 @@ func toIdentRefList(base []*meta.Identity, v interface{}) (val.IdentRefList, err
 
 func toEnumList(src val.EnumList, v interface{}) (val.EnumList, error) {
 	switch x := v.(type) {
+	case val.EnumList:
+		// what a store received from the library comes back as it was stored
+		l := make([]val.Enum, len(x))
+		var err error
+		for i := 0; i < len(x); i++ {
+			if l[i], err = toEnum(src, x[i]); err != nil {
+				return nil, err
+			}
+		}
+		return l, nil
 	case []string:
 		l := make([]val.Enum, len(x))
 		var err error
@@ -161,6 +187,9 @@ func toEnumList(src val.EnumList, v interface{}) (val.EnumList, error) {
 }
 
 func toEnum(src val.EnumList, v interface{}) (val.Enum, error) {
+	if e, isEnum := v.(val.Enum); isEnum {
+		v = e.Label
+	}
 	if id, isNum := val.Conv(val.FmtInt32, v); isNum == nil {
 		if e, found := src.ById(id.Value().(int)); found {
 			return e, nil
@@ -213,6 +242,17 @@ func toBitsListHandler[V uint64 | int | uint | int64 | string | []string | float
 
 func toBitsList(bitDefintions []*meta.Bit, v interface{}) (val.BitsList, error) {
 	switch x := v.(type) {
+	case val.BitsList:
+		return x, nil
+	case []interface{}: // e.g. decoded JSON array
+		result := make([]val.Bits, len(x))
+		var err error
+		for i, item := range x {
+			if result[i], err = toBits(bitDefintions, item); err != nil {
+				return nil, err
+			}
+		}
+		return result, nil
 	case []string: // treat string as list of bit identifiers separated by space
 		return toBitsListHandler(bitDefintions, x)
 	case [][]string:
@@ -239,6 +279,8 @@ func toBitsValueHandler[V int | uint | int64 | float64](bitDefintions []*meta.Bi
 func toBits(bitDefintions []*meta.Bit, v interface{}) (val.Bits, error) {
 	result := val.Bits{}
 	switch x := v.(type) {
+	case val.Bits:
+		return x, nil
 	case []string: // labels only
 		for _, strBit := range x {
 			found := false
